@@ -181,6 +181,11 @@ def state_for(m, salt):
     regs = {}
     for l, v in m:
         for r in E.symbols_of(l) + E.symbols_of(v):
+            # values are given to whole registers only: an equivalent in-place re-shaping may
+            # replace (bc-1)[0:8] by (c-1), and the state must not depend on which of the
+            # two names the map mentions at the moment
+            while r._is_slc and hasattr(r, "x") and r.x._is_reg:
+                r = r.x
             regs[str(r)] = r
     for name, r in sorted(regs.items()):
         if r._is_ext or not r.size or not r._is_reg:
